@@ -551,6 +551,9 @@ SUBS = [
     Sub("damage", oracle_grammar, strategy=lambda tier: dc.damage_cases(),
         budget={"quick": 4000, "thorough": 100000}, shards={"quick": 4, "thorough": 16},
         what="malformed texts -> one -32700, nothing invoked"),
+    Sub("long", oracle_grammar, strategy=lambda tier: dc.long_cases(),
+        budget={"quick": 1200, "thorough": 30000}, shards={"quick": 4, "thorough": 16},
+        what="bodies of 100..70 000 bytes (multi-byte padding at every alignment): garbage and truncations -> -32700, objects that are no request -> -32600, long unknown method names -> -32601"),
     Sub("signatures", oracle_signature, strategy=lambda tier: signature_cases(),
         budget={"quick": 3000, "thorough": 60000}, shards={"quick": 4, "thorough": 8},
         what="generated signatures vs argument lists/maps: -32602 iff binding fails"),
